@@ -250,3 +250,17 @@ func WriteFiles(dir string, files map[string][]byte) error {
 	}
 	return nil
 }
+
+// TempDir creates a scratch directory, on a memory file system when there is one (crash-state
+// enumeration creates and deletes hundreds of thousands of small files; a journalling file
+// system serialises that across the worker processes). The caller removes it.
+func TempDir(prefix string) (string, error) {
+	if os.Getenv("TMPDIR") == "" {
+		if st, err := os.Stat("/dev/shm"); err == nil && st.IsDir() {
+			if d, err2 := os.MkdirTemp("/dev/shm", prefix); err2 == nil {
+				return d, nil
+			}
+		}
+	}
+	return os.MkdirTemp("", prefix)
+}
